@@ -54,7 +54,7 @@ func TestCheck(t *testing.T) {
 
 	depth, canonDepth := 2, 3
 	if engine.Thorough() {
-		depth, canonDepth = 3, 5
+		depth, canonDepth = 3, 6
 	}
 	if v := os.Getenv("C06_DEPTH"); v != "" {
 		fmt.Sscan(v, &depth)
@@ -62,11 +62,17 @@ func TestCheck(t *testing.T) {
 	if v := os.Getenv("C06_CANON_DEPTH"); v != "" {
 		fmt.Sscan(v, &canonDepth)
 	}
+	budgetFull, budgetMerged := engine.Budget(10*time.Minute, 60*time.Minute), engine.Budget(6*time.Minute, 30*time.Minute)
+	if v := os.Getenv("C06_BUDGET_MIN"); v != "" { // wall budget override for loaded machines
+		var m int
+		fmt.Sscan(v, &m)
+		budgetFull, budgetMerged = time.Duration(m)*time.Minute, time.Duration(m)*time.Minute
+	}
 	perLevel, _ := predict(max(depth, 4))
 	fmt.Println("[C06] histories per length (from the alphabet definition):", perLevel)
 	shared := &cache{nodes: map[string]*node{}}
 	full := newExplorer(shared, nil)
-	sec := full.search(fmt.Sprintf("histories/depth%d", depth), depth, engine.BFSOpts[*node]{Budget: engine.Budget(10*time.Minute, 60*time.Minute)})
+	sec := full.search(fmt.Sprintf("histories/depth%d", depth), depth, engine.BFSOpts[*node]{Budget: budgetFull})
 	want := 0
 	for _, n := range perLevel[:depth] {
 		want += n
@@ -74,13 +80,13 @@ func TestCheck(t *testing.T) {
 	if sec.Exhaustive && int(sec.Transitions) != want && os.Getenv("VERIF_REPLAY") == "" {
 		engine.HarnessFail("section %s executed %d transitions, the alphabet definition gives %d", sec.Name, sec.Transitions, want)
 	}
-	sec.Note("every history is its own state (no merging); %d operations executed, %d of them computed ahead in parallel batches", full.computed, full.prefetched)
+	sec.Note("every history is its own state (no merging); %d (history, operation) pairs evaluated (every enabled one = one execution of the operation and of the invariant on the real code), %d of them ahead of the engine in parallel batches", full.computed, full.prefetched)
 	merged := newExplorer(shared, canonKey)
-	sec2 := merged.search(fmt.Sprintf("merged/depth%d", canonDepth), canonDepth, engine.BFSOpts[*node]{Budget: engine.Budget(6*time.Minute, 30*time.Minute)})
+	sec2 := merged.search(fmt.Sprintf("merged/depth%d", canonDepth), canonDepth, engine.BFSOpts[*node]{Budget: budgetMerged})
 	if _, m := predict(canonDepth); sec2.Exhaustive && int(sec2.States) != m && os.Getenv("VERIF_REPLAY") == "" {
 		engine.HarnessFail("section %s found %d merged states, the alphabet definition gives %d", sec2.Name, sec2.States, m)
 	}
-	sec2.Note("canonical state key (current structure, holder set, epoch); %d of its transitions were executed in this section, the others are histories already executed by the unmerged section (same history = same deterministic execution) whose recorded result is evaluated again", merged.computed)
+	sec2.Note("canonical state key (current structure, holder set, epoch); %d (history, operation) pairs were evaluated in this section, the others are histories already executed by the unmerged section (same history = same deterministic execution) whose recorded result is evaluated again", merged.computed)
 	for _, l := range statLines() {
 		fmt.Println("  outcome", l)
 		sec2.Note("outcome %s", l)
